@@ -288,6 +288,27 @@ func checkC13(c *Ctx, r *Report) {
 		o := r.add("C13.e", "sequential", "no-goroutines-in-analysis-or-generation", fmt.Sprintf("no `go` statement in the %d analysed functions", len(c.W.SSAFuncs)), []string{"gleece"}, sites, viol)
 		o.NonTrivial = true
 	}
+
+	// ---- C13.f the artifacts do not depend on what an earlier run left at the output path
+	for _, fnk := range []string{"generator/routes.GenerateRoutes", "generator/swagen.GenerateAndOutputSpec"} {
+		fi := need(c, r, "C13.f", fnk)
+		if fi == nil {
+			continue
+		}
+		viol := ""
+		var sites []string
+		fws := c.W.fileWritesOf(fi.SSA, 0)
+		for _, fw := range fws {
+			sites = append(sites, c.W.pos(fw.Site.Pos()))
+			if !fw.Truncates {
+				viol = fmt.Sprintf("%s: %s writes its artifact with %s and no O_TRUNC: bytes of a longer file left by an earlier run survive behind the new content, so the output is a function of history, not of project and configuration", c.W.pos(fw.Site.Pos()), fnk, fw.Via)
+			}
+		}
+		if len(fws) == 0 {
+			viol = "no file write found in " + fnk
+		}
+		r.add("C13.f", "fieldflow", fnk+":truncating-write", "the artifact replaces whatever was at the output path", []string{fnk}, sites, viol)
+	}
 }
 
 func sameAlloc(a, b ssa.Value) bool {
